@@ -1,8 +1,12 @@
 /-
-  Model of pgdump/toast.go (with fixes/toast/01..06 applied) and of types.go:ReadVarlena as far as
+  Model of pgdump/toast.go (with fixes/toast/01..06, 20..22 applied) and of types.go:ReadVarlena as far as
   ReadTOASTTable uses it.  One Lean function per Go function, same guards, same order of evaluation.
-  Parameters standing for the environment: `zlib data n` (compress/zlib NewReader + io.ReadAll of at most `n` bytes through
-  io.LimitReader on the fallback path, fix toast/20: `none` = either of them fails), `readFile` (os.ReadFile of base/<dbOID>/<relid>).
+  Parameters standing for the environment: `zlib data n` (compress/zlib NewReader + the first `n` bytes of the inflated
+  stream through io.LimitReader on the fallback path, fixes toast/20 and /22: `none` = the stream is not zlib or is
+  damaged), `readFile` (os.ReadFile of base/<dbOID>/<relid>).
+  Not modelled: capacities.  `pglzOutputSize` / `lz4OutputSize` (fixes/toast/22) only choose the capacity of the result
+  slice (append would grow it were they too small), so they do not influence any result; that they are exact is checked
+  by the harness (family `lz4`/`pglz`/`toastmut` handlers compare cap and len) and the allocation by family `resource`.
   Core Lean only (driver path).
 -/
 import PgVerif.Model.Heap
@@ -88,17 +92,68 @@ def chunkOf (tdata : Bytes) : M (Option Chunk) := do
           else pure []
   if d.length > 0 then return some ⟨id, seq, d⟩ else return none
 
+/-- toast.go:toastVisible (fixes/toast/21) on a whole raw tuple: PostgreSQL's HeapTupleSatisfiesToast —
+HEAP_XMIN_COMMITTED (0x0100) set: visible; else HEAP_XMIN_INVALID (0x0200) set: not; else visible iff t_xmin ≠ 0.
+t_xmax and the XMAX bits are not read. -/
+def toastVisible (raw : Bytes) : M Bool := do
+  let infomask ← uN 2 raw 20
+  if infomask &&& 0x0100 != 0 then pure true
+  else if infomask &&& 0x0200 != 0 then pure false
+  else do
+    let xmin ← uN 4 raw 0
+    pure (xmin != 0)
+
+/-- body of the inner loop of toast.go:readTOASTTuples for one line pointer: the checks of ParsePage, then
+`if tuple := ParseHeapTuple(raw); tuple != nil && toastVisible(raw)` -/
+def toastPageItem (data : Bytes) (upper : Nat) (item : ItemID) : M (Option HeapTuple) := do
+  if item.flags != 1 || item.length == 0 then return none
+  if item.offset < upper || item.offset + item.length > 8192 then return none
+  let s ← slice data item.offset (item.offset + item.length)
+  match ← parseHeapTuple s with
+  | none => pure none
+  | some t => do
+    let v ← toastVisible s
+    pure (if v then some t else none)
+
+/-- one page of readTOASTTuples (`data` = the 8192 bytes of the page): header checks as in ParsePage, `continue` on an
+invalid header -/
+def toastPageTuples (data : Bytes) : M (List HeapTuple) := do
+  let h ← parseHeader data
+  if !validHeader h then return []
+  let items ← parseItems data h.lower
+  collectM (toastPageItem data h.upper) items
+
+/-- `for off := 0; off+PageSize <= len(data); off += PageSize`, `n` = iterations still allowed -/
+def readTOASTTuplesFrom (data : Bytes) : Nat → Nat → M (List HeapTuple)
+  | 0, _ => pure []
+  | n+1, off => do
+    if off + 8192 ≤ data.length then
+      let pg ← slice data off (off + 8192)
+      let ts ← toastPageTuples pg
+      let rest ← readTOASTTuplesFrom data n (off + 8192)
+      pure (ts ++ rest)
+    else pure []
+
+/-- toast.go:readTOASTTuples (fixes/toast/21): the tuples of a TOAST relation file that PostgreSQL's TOAST snapshot sees,
+in physical order -/
+def readTOASTTuples (data : Bytes) : M (List HeapTuple) :=
+  readTOASTTuplesFrom data (data.length / 8192 + 1) 0
+
 /-- toast.go:ReadTOASTTable -/
 def readTOASTTable (data : Bytes) : M (List Chunk) := do
-  let es ← readTuples data true
-  collectM (fun e => chunkOf e.tuple.data) es
+  let ts ← readTOASTTuples data
+  collectM (fun t => chunkOf t.data) ts
 
 /-- the decompression branch of ReassembleTOAST (`data` = concatenated chunks, longer than 4 bytes).
-`zlib data n` stands for `io.ReadAll(io.LimitReader(zlib.NewReader(data), n))` (fix toast/20: the fallback reads at most
-`rawSize` bytes, like the two decompressors): `some z` = the bytes read without error — at most `n` of them, which is
-io.LimitReader's contract and the hypothesis `ZlibBounded` of the size theorem — `none` = an error. -/
+`zlib data n` stands for the first `n` bytes of `zlib.NewReader(data)` read through `io.LimitReader` (fix toast/20: the
+fallback reads at most `rawSize` bytes, like the two decompressors; fix toast/22: and at most 255 bytes per stored byte,
+the ratio of the densest format PostgreSQL does write — `rawSize` alone is the attacker's 32-bit field, no bound in the
+input; the stream is inflated twice, counted first, so that the result is allocated once): `some z` = the bytes read without
+error — at most `n` of them, which is io.LimitReader's contract and the hypothesis `ZlibBounded` of the size theorems —
+`none` = an error. -/
 def decompressStored (zlib : Bytes → Nat → Option Bytes) (p : Ptr) (data : Bytes) : M Bytes := do
   let rawSize := p.rawSize - 4
+  let limit := min rawSize (255 * data.length)
   let stream ← sliceFrom data 4
   let viaLz4 ← if p.method == 1 then Lz4.decompressLZ4 stream rawSize else pure none
   match viaLz4 with
@@ -108,11 +163,11 @@ def decompressStored (zlib : Bytes → Nat → Option Bytes) (p : Ptr) (data : B
     match viaPglz with
     | some d =>
       if d.length > 0 then return d
-      match zlib data rawSize with
+      match zlib data limit with
       | some z => return z
       | none => return data
     | none =>
-      match zlib data rawSize with
+      match zlib data limit with
       | some z => return z
       | none => return data
 
